@@ -8,6 +8,7 @@ import RitiModel.Model.Context
 import RitiModel.Model.Okkhor
 import RitiModel.Model.Bijoy
 import RitiModel.Model.Json
+import RitiModel.Model.JsonValue
 import RitiModel.Model.Regex
 import Std.Data.HashMap
 open Riti Std
@@ -313,6 +314,77 @@ def handle (st : St) (line : String) : IO St := do
       | some g =>
         if Riti.Json.printBytes g == bytes then return bump st "json-writer-agrees"
         else report st s!"MISMATCH case={st.caseName} line={st.lineNo} json-written: the model prints the same entries differently bytes={hx}"
+  | "layout-read" :: hx :: verdict :: kv =>
+    -- correspondence for the Lean reader of layout FILES (Model/JsonValue: UTF-8, serde_json's Value reader, v["layout"],
+    -- from_value::<HashMap<String,String>>): it must obtain a map exactly when riti's steps do, and the same map
+    match parseHex hx with
+    | none => report st s!"MISMATCH case={st.caseName} line={st.lineNo} layout-read: malformed hex"
+    | some bytes =>
+      match Riti.JsonValue.layoutOfFile bytes with
+      | .error .unsupportedNumber => return bump st "layout-reader-unsupported-number-not-compared"
+      | .error .fuel => report st s!"MISMATCH case={st.caseName} line={st.lineNo} layout-read: the model reader ran out of fuel bytes={hx}"
+      | got =>
+        let want : Option (List (List Char × List Char)) := if verdict == "-" then none else some (pairs (kv.filter (· ≠ "")))
+        let ok := match got, want with
+          | .error _, none => true
+          | .ok g, some e => g.length == e.length && e.all (fun p => Riti.alookup g p.1 == some p.2)
+          | _, _ => false
+        if ok then
+          let tag := match got with
+            | .ok _ => "layout-reader-accepts-like-serde"
+            | .error .notUtf8 => "layout-reader-rejects-like-serde-not-utf8"
+            | .error .tooDeep => "layout-reader-rejects-like-serde-recursion-limit"
+            | .error .wrongShape => "layout-reader-rejects-like-serde-no-layout-object-of-strings"
+            | .error _ => "layout-reader-rejects-like-serde-not-json"
+          return bump st tag
+        else
+          let g := match got with | .ok _ => "accepts" | .error e => s!"rejects ({repr e})"
+          report st s!"MISMATCH case={st.caseName} line={st.lineNo} layout-read: model {g} serde_json {if want.isSome then "accepts" else "rejects"} (or the maps differ) bytes={hx}"
+  | "typed-read" :: hx :: vs :: vl :: [] =>
+    -- the typed readers of the data files on a generated document: from_slice::<HashMap<String,String>> / <HashMap<String,Vec<String>>>
+    -- accept (`+`) or reject (`-`)
+    match parseHex hx with
+    | none => report st s!"MISMATCH case={st.caseName} line={st.lineNo} typed-read: malformed hex"
+    | some bytes =>
+      let gs := match Riti.JsonValue.stringMapOfFile bytes with | .ok _ => "+" | .error _ => "-"
+      let gl := match Riti.JsonValue.tableOfFile bytes with | .ok _ => "+" | .error _ => "-"
+      if gs == vs && gl == vl then return bump st (if gs == "+" || gl == "+" then "typed-reader-accepts-like-serde" else "typed-reader-rejects-like-serde")
+      else report st s!"MISMATCH case={st.caseName} line={st.lineNo} typed-read: model map-of-strings {gs} map-of-lists {gl}, serde_json {vs} {vl} bytes={hx}"
+  | ["layout-file", path, hx] =>
+    -- a layout file given by its BYTES: the model reads it itself (no table from the harness); an unreadable file leaves the
+    -- path without a layout, so that `new` over it is the model's PANIC
+    match parseHex hx with
+    | none => report st s!"MISMATCH case={st.caseName} line={st.lineNo} layout-file: malformed hex"
+    | some bytes =>
+      match Riti.JsonValue.layoutOfFile bytes with
+      | .ok m =>
+        let hm : HashMap String (List Char) := m.foldl (fun acc kv => acc.insert (key kv.1) kv.2) {}
+        return bump { st with t := { st.t with layouts := st.t.layouts.insert (key (unescape path)) hm } } "layout-file-read-by-the-model"
+      | .error .unsupportedNumber => report st s!"MISMATCH case={st.caseName} line={st.lineNo} layout-file: a document with an unsupported number was sent for a context run bytes={hx}"
+      | .error _ => return bump { st with t := { st.t with layouts := st.t.layouts.erase (key (unescape path)) } } "layout-file-rejected-by-the-model"
+  | ["data-file", kind, path] =>
+    -- the REAL data file, read by the Lean reader, against the table the harness dumped from serde_json's reading (TSV, `load` lines)
+    let bytes ← IO.FS.readBinFile path
+    let bl := bytes.toList
+    let cmp (st : St) (name : String) (n : Nat) (bad : Nat) (tsvSize : Nat) : IO St :=
+      if bad == 0 && n == tsvSize then return bump st s!"data-file-{name}-agrees"
+      else report st s!"MISMATCH case={st.caseName} line={st.lineNo} data-file {name}: the Lean reader finds {n} entries, {bad} of them differ from the table of {tsvSize} entries serde_json read"
+    match kind with
+    | "dictionary" =>
+      match Riti.JsonValue.tableOfFile bl with
+      | .error e => report st s!"MISMATCH case={st.caseName} line={st.lineNo} data-file dictionary: the Lean reader rejects the file ({repr e})"
+      | .ok m =>
+        let bad := (m.filter (fun kv => st.t.dictionary.get? (key kv.1) != some kv.2)).length
+        let st := { st with counters := st.counters.insert "data-file-entries-compared" (st.counters.getD "data-file-entries-compared" 0 + (m.foldl (fun (a : Nat) (kv : List Char × List (List Char)) => a + kv.2.length) 0)) }
+        cmp st "dictionary" m.length bad st.t.dictionary.size
+    | _ =>
+      match Riti.JsonValue.stringMapOfFile bl with
+      | .error e => report st s!"MISMATCH case={st.caseName} line={st.lineNo} data-file {kind}: the Lean reader rejects the file ({repr e})"
+      | .ok m =>
+        let tbl := if kind == "suffix" then st.t.suffix else st.t.autocorrect
+        let bad := (m.filter (fun kv => tbl.get? (key kv.1) != some kv.2)).length
+        let st := { st with counters := st.counters.insert "data-file-entries-compared" (st.counters.getD "data-file-entries-compared" 0 + m.length) }
+        cmp st kind m.length bad tbl.size
   | ["rankcmp", va, na, vb, row] =>
     -- `impl Ord for Rank` on one row of its complete domain against `Rank.cmp` (over the generated arm table)
     let mk (v n : Nat) : Riti.Rank := match v with | 0 => .first ['x'] | 1 => .emoji ['x'] n | 2 => .other ['x'] n | _ => .last ['x'] n
